@@ -199,6 +199,148 @@ theorem invoker_seen_iff_answers (ps : List Bytes) (sid : Bytes) :
   · simp only [he, Bool.not_false, ↓reduceIte, Bool.false_eq_true]
     by_cases h2 : (checkStripPrefix sid ps).2.isEmpty = true <;> simp [h2]
 
+/-! ### `LookupRpcClient`: rpc.ClientController and the controller stream/srpc/client/controller builds -/
+
+/-- `ClientController` with a given prefix list: answered iff no prefixes, or the *first*
+matching prefix is non-empty (the same `CheckStripPrefix` reading as the invoker registration). -/
+theorem client_answers_iff (ps : List Bytes) (sid : Bytes) :
+    clientAnswers ps sid = true ↔ ps = [] ∨ ∃ p, firstPrefix ps sid = some p ∧ p ≠ [] :=
+  invoker_answers_iff ps sid
+
+/-- The property's clause for a client registration whose prefixes are all non-empty. -/
+theorem client_answers_partial (ps : List Bytes) (sid : Bytes) (hne : [] ∉ ps) :
+    clientAnswers ps sid = true ↔ ps = [] ∨ ∃ p ∈ ps, p <+: sid :=
+  invoker_answers_partial ps sid hne
+
+/-- What the remote sees: the request with exactly the first matching prefix removed. -/
+theorem client_strip_exact (ps : List Bytes) (sid s : Bytes) (h : prefixClientSeen ps sid = some s) :
+    (ps = [] ∧ s = sid) ∨ ∃ p, firstPrefix ps sid = some p ∧ p ≠ [] ∧ sid = p ++ s :=
+  invoker_strip_exact ps sid s h
+
+/-- A call through the resolved client is forwarded exactly for the lookups that are answered. -/
+theorem client_seen_iff_answers (ps : List Bytes) (sid : Bytes) :
+    (prefixClientSeen ps sid).isSome = clientAnswers ps sid :=
+  invoker_seen_iff_answers ps sid
+
+/-- What `NewController` hands on: nothing for an empty list or a leading empty prefix, the
+configured list otherwise. -/
+theorem clientPrefixes_spec (cfg : List Bytes) :
+    ((cfg = [] ∨ cfg.head? = some []) → clientPrefixes cfg = []) ∧
+    (cfg ≠ [] → cfg.head? ≠ some [] → clientPrefixes cfg = cfg) := by
+  cases cfg with
+  | nil => simp [clientPrefixes]
+  | cons p rest =>
+    by_cases hp : p = []
+    · subst hp; simp [clientPrefixes]
+    · have : p.isEmpty = false := by simpa using hp
+      simp [clientPrefixes, this, hp]
+
+/-- "If empty slice or empty string: matches all LookupRpcClient calls" (config.proto): a
+controller configured without prefixes answers every lookup and forwards the ID unchanged
+(audit row 4: it answered none before the fix). -/
+theorem client_built_default (sid : Bytes) :
+    clientCtlAnswers [] sid = true ∧ clientCtlSeen [] sid = some sid := by
+  simp [clientCtlAnswers, clientCtlSeen, clientPrefixes, clientAnswers, prefixClientSeen]
+
+/-- …and so does one whose list starts with the empty prefix. -/
+theorem client_built_leading_empty (rest : List Bytes) (sid : Bytes) :
+    clientCtlAnswers ([] :: rest) sid = true ∧ clientCtlSeen ([] :: rest) sid = some sid := by
+  simp [clientCtlAnswers, clientCtlSeen, clientPrefixes, clientAnswers, prefixClientSeen]
+
+/-- Exact characterisation of the built controller. -/
+theorem client_built_answers_iff (cfg : List Bytes) (sid : Bytes) :
+    clientCtlAnswers cfg sid = true ↔
+      cfg = [] ∨ cfg.head? = some [] ∨ ∃ p, firstPrefix cfg sid = some p ∧ p ≠ [] := by
+  cases cfg with
+  | nil => simp [(client_built_default sid).1]
+  | cons p rest =>
+    by_cases hp : p = []
+    · subst hp
+      simp [(client_built_leading_empty rest sid).1]
+    · have hpre := (clientPrefixes_spec (p :: rest)).2 (by simp) (by simpa using hp)
+      unfold clientCtlAnswers
+      rw [hpre, client_answers_iff]
+      simp [hp]
+
+/-- The property's clause for the built controller: it answers exactly when it has no filter or
+the service ID has one of the configured prefixes — provided no empty prefix is configured after
+the first position. -/
+theorem client_built_answers_partial (cfg : List Bytes) (sid : Bytes) (hne : [] ∉ cfg.tail) :
+    clientCtlAnswers cfg sid = true ↔ cfg = [] ∨ ∃ p ∈ cfg, p <+: sid := by
+  cases cfg with
+  | nil => simp [(client_built_default sid).1]
+  | cons p rest =>
+    by_cases hp : p = []
+    · subst hp
+      simp only [(client_built_leading_empty rest sid).1, true_iff]
+      exact Or.inr ⟨[], by simp, List.nil_prefix⟩
+    · have hpre := (clientPrefixes_spec (p :: rest)).2 (by simp) (by simpa using hp)
+      unfold clientCtlAnswers
+      rw [hpre]
+      apply client_answers_partial
+      intro hmem
+      rcases List.mem_cons.mp hmem with h | h
+      · exact hp h.symm
+      · exact hne (by simpa using h)
+
+/-- REFUTED for the built controller too when an empty prefix follows a non-empty one: config
+`["a", ""]` has the prefix `""` of `"b"` but does not answer it (same root cause as the invoker
+registration: `CheckStripPrefix` cannot report a match of the empty prefix; known finding). -/
+theorem client_built_answers_iff_false :
+    ¬ (∀ (cfg : List Bytes) (sid : Bytes),
+        clientCtlAnswers cfg sid = true ↔ cfg = [] ∨ ∃ p ∈ cfg, p <+: sid) := by
+  intro h
+  have := (h [[97], []] [98]).mpr (Or.inr ⟨[], by simp, List.nil_prefix⟩)
+  exact absurd this (by decide)
+
+/-- What the remote sees through the built controller. -/
+theorem client_built_strip_exact (cfg : List Bytes) (sid s : Bytes) (h : clientCtlSeen cfg sid = some s) :
+    ((cfg = [] ∨ cfg.head? = some []) ∧ s = sid) ∨
+      ∃ p, firstPrefix cfg sid = some p ∧ p ≠ [] ∧ sid = p ++ s := by
+  by_cases hc : cfg = [] ∨ cfg.head? = some []
+  · have hpre := (clientPrefixes_spec cfg).1 hc
+    unfold clientCtlSeen at h
+    rw [hpre] at h
+    simp [prefixClientSeen] at h
+    exact Or.inl ⟨hc, h.symm⟩
+  · have hpre := (clientPrefixes_spec cfg).2 (fun h0 => hc (Or.inl h0)) (fun h0 => hc (Or.inr h0))
+    unfold clientCtlSeen at h
+    rw [hpre] at h
+    rcases client_strip_exact cfg sid s h with ⟨h0, _⟩ | h1
+    · exact absurd (Or.inl h0) hc
+    · exact Or.inr h1
+
+/-! ### rpc/access.ClientController (the registration of a remote bus) -/
+
+/-- Exact characterisation: each regexp is applied to a NON-EMPTY ID only. -/
+theorem access_answers_iff (c : AccessClient) (reMatch srvMatch : Bytes → Bool) (sid srv : Bytes) :
+    c.answers reMatch srvMatch sid srv = true ↔
+      (c.hasRe = true → sid = [] ∨ reMatch sid = true) ∧
+      (c.hasServerRe = true → srv = [] ∨ srvMatch srv = true) := by
+  unfold AccessClient.answers
+  cases c.hasRe <;> cases c.hasServerRe <;> cases hm : reMatch sid <;> cases hv : srvMatch srv <;>
+    cases h1 : sid.isEmpty <;> cases h2 : srv.isEmpty <;> simp_all
+
+/-- The property's clause ("answers exactly when the service ID satisfies the pattern and the
+server ID satisfies the server filter, or there is no filter") for lookups that name both IDs. -/
+theorem access_answers_partial (c : AccessClient) (reMatch srvMatch : Bytes → Bool) (sid srv : Bytes)
+    (h1 : sid ≠ []) (h2 : srv ≠ []) :
+    c.answers reMatch srvMatch sid srv = true ↔
+      (c.hasRe = true → reMatch sid = true) ∧ (c.hasServerRe = true → srvMatch srv = true) := by
+  rw [access_answers_iff]
+  simp [h1, h2]
+
+/-- REFUTED as stated: an empty server ID (or service ID) passes a configured pattern it does
+not match. Witness: server pattern that matches nothing, server ID `""` (known finding; the
+sibling `RpcServiceController` applies its server pattern to the empty ID, `rpc_answers_iff`). -/
+theorem access_answers_iff_false :
+    ¬ (∀ (c : AccessClient) (reMatch srvMatch : Bytes → Bool) (sid srv : Bytes),
+        c.answers reMatch srvMatch sid srv = true ↔
+          (c.hasRe = true → reMatch sid = true) ∧ (c.hasServerRe = true → srvMatch srv = true)) := by
+  intro h
+  have := (h ⟨false, true⟩ (fun _ => false) (fun _ => false) [97] []).mp (by decide)
+  simp at this
+
 /-! ### HTTPHandlerController -/
 
 /-- The prefix the handler will be stripped of: the first matching one (empty if none). -/
@@ -343,6 +485,10 @@ theorem muxMethod_spec (m : Bytes) :
   · intro h; simp [h]
   · intro h; simp [h]
 
+/-- …and with the host of the lookup URL as `Request.Host`, so that a host-qualified pattern
+(`"GET example.com/my/ws"`) can answer a lookup that names that host. -/
+theorem muxHost_spec (h : Bytes) : muxHost h = h := rfl
+
 /-! ### non-vacuity -/
 
 /-- A stripping registration that serves a request: prefixes `["a"]`, service ID `"ab"` → `"b"`. -/
@@ -354,6 +500,15 @@ example : (RpcSvc.mk [[97]] true false [[98]] false).answers (fun _ => false) (f
 
 /-- The `[] ∉ ps` hypothesis of `invoker_answers_partial` is satisfiable with a served request. -/
 example : ([] : Bytes) ∉ [[97]] ∧ invokerAnswers [[97]] [97, 98] = true := by decide
+
+/-- The built client controller: `["a"]` serves `"ab"` as `"b"`; the hypothesis of
+`client_built_answers_partial` holds for it. -/
+example : ([] : Bytes) ∉ ([[97]] : List Bytes).tail ∧ clientCtlAnswers [[97]] [97, 98] = true ∧
+    clientCtlSeen [[97]] [97, 98] = some [98] := by decide
+
+/-- Access client: both patterns configured, both IDs named and matching. -/
+example : (AccessClient.mk true true).answers (fun _ => true) (fun _ => true) [97] [115] = true ∧
+    (AccessClient.mk true true).answers (fun _ => false) (fun _ => true) [97] [115] = false := by decide
 
 /-- HTTP: escaped path that does not carry the prefix → 404 branch. -/
 example : (HttpCtl.mk [[47, 97, 47]] true false).seen (fun _ => false) [47, 97, 47, 98] [47, 97, 37, 50, 70, 98] = none := by
